@@ -25,7 +25,8 @@ RULE = ("domain systems: every sequence of <= 5 (quick) / <= 6 (thorough) molecu
         "each with every permutation of every sub-list of the four topologies (65 loading orders, absent species are refused "
         "and the session goes on; quick tier at length 5: 12 full permutations + 6 shorter orders drawn per system) plus 3 orders "
         "with near-miss topologies (one atom name changed: refused, state preserved); size-boundary systems with uninterrupted blocks "
-        "of 127-130 and 300 instances of a 1-, 2- and 3-residue species; random longer domain systems over random species with disjoint signatures; wild systems "
+        "of 127-130 and 300 instances of a 1-, 2- and 3-residue species; a second exhaustive family with residue names shared inside "
+        "and across species with different atom counts; hand-made residue numbers in the topologies; orders offering a topology twice; random longer domain systems over random species with disjoint signatures; wild systems "
         "(shared signatures, same name+size with other atom names, truncated instances, topologies that merge residues) for K only. "
         "A case is one (file, loading order); non-trivial = distinct and at least one topology accepted or refused after a scan.")
 
@@ -62,18 +63,38 @@ def ename(c):
     return getattr(c, "name", "error class %d" % int(c))
 
 
-def top_atoms(sp, merge_resid=False):
+def top_atoms(sp, merge_resid=False, resids=None):
     """[(atomname, resname, resid)] of the topology of a species; merge_resid: give equal consecutive
-    residue names the same resid (the topology then shows them as one residue run)"""
+    residue names the same resid (the topology then shows them as one residue run); resids: the residue
+    number of each residue (default 1, 2, 3, ...)"""
     out = []
     rid = 0
     prev = None
-    for rn, names in sp["residues"]:
+    for j, (rn, names) in enumerate(sp["residues"]):
         if not (merge_resid and prev == rn):
             rid += 1
         prev = rn
         for an in names:
-            out.append((an, rn, rid))
+            out.append((an, rn, rid if resids is None else resids[j]))
+    return out
+
+
+def random_resids(rs, sp):
+    """residue numbers as hand-made topologies have them: equal numbers on consecutive residues with DIFFERENT names
+    (resnr left at 1 for a whole ion pair), gaps, non-monotone; two consecutive residues with the same name always get
+    different numbers (otherwise the topology would describe one residue)"""
+    out = []
+    prev_rn = None
+    for rn, _ in sp["residues"]:
+        if out and rn != prev_rn and rs.randint(0, 2):
+            out.append(out[-1])
+        else:
+            while True:
+                r = int(rs.randint(1, 12))
+                if not out or r != out[-1]:
+                    break
+            out.append(r)
+        prev_rn = rn
     return out
 
 
@@ -111,14 +132,14 @@ def build_system(spec):
     return {"gro": gro, "tops": tops, "residues": res_list, "records": recs, "truth": truth}
 
 
-def species_top(sp, merge_resid=False):
-    return {"name": sp["name"], "atoms": top_atoms(sp, merge_resid)}
+def species_top(sp, merge_resid=False, resids=None):
+    return {"name": sp["name"], "atoms": top_atoms(sp, merge_resid, resids)}
 
 
-def near_miss_top(sp):
+def near_miss_top(sp, resids=None):
     """the topology of the species with ONE atom name changed (the last atom): same (resname, size) signature, so the
     residue pattern is found in the file, but no run matches atom by atom -> must be refused and change nothing"""
-    atoms = [list(a) for a in top_atoms(sp)]
+    atoms = [list(a) for a in top_atoms(sp, resids=resids)]
     atoms[-1][0] = (atoms[-1][0] + "x")[:5]
     return {"name": "N" + sp["name"], "atoms": [tuple(a) for a in atoms]}
 
@@ -368,7 +389,10 @@ def oracle_session(spec, built, order, obs, mols, loads, views=True):
                            (spec["species"][sp]["name"], ename(code)))
             loaded.append(sp)
         else:
-            if code == 0:
+            if code == 0 and sp is not None and sp in loaded:
+                bad.append("topology %s was accepted a second time although every instance was already a molecule "
+                           "(molecules no longer disjoint / one per instance)" % spec["tops"][k]["name"])
+            elif code == 0:
                 bad.append("topology %s with no matching run was accepted" % spec["tops"][k]["name"])
     if "ctor_err" in obs:
         return ["System(gro) raised %s on a well-formed file" % ename(obs["ctor_err"])]
@@ -563,11 +587,42 @@ def run_system(job):
 
 
 # ------------------------------------------------------------------ generators
-def fixed_spec(seq):
-    """seq: tuple over 0..4 (0..3 = FIXED species, 4 = solvent residue)"""
-    return {"species": FIXED, "segments": [s if s < 4 else SOLVENT for s in seq],
-            "tops": [species_top(sp) for sp in FIXED] + [near_miss_top(sp) for sp in FIXED],
-            "top_species": [0, 1, 2, 3, None, None, None, None]}
+def repeat_orders(rs, present, nsp, n=2):
+    """loading orders in which a topology is offered again after it was accepted: the second offer has no run left
+    (every instance is already a molecule) and must be refused - molecules stay pairwise disjoint, one per instance"""
+    out = []
+    pool = sorted(present) if present else list(range(nsp))
+    for j in range(n):
+        s0 = pool[int(rs.randint(0, len(pool)))]
+        if j == 0:
+            o = [s0, s0]
+        else:
+            o = [int(x) for x in rs.permutation(nsp)]
+            o.insert(int(rs.randint(o.index(s0) + 1, len(o) + 1)), s0)      # again, somewhere after its first load
+        out.append(o)
+    return out
+
+
+# second family for the exhaustive enumeration: residue NAMES shared inside a species and across species with
+# different atom counts (terminal residues; the signature is (resname, atom count), so these are distinct signatures)
+FIXED_NAMES = [
+    {"name": "PEP", "residues": [["ALA", ["n", "ca", "cb"]], ["GLY", ["g1"]], ["ALA", ["ca", "o"]]]},
+    {"name": "AMI", "residues": [["ALA", ["x1"]]]},
+    {"name": "GG", "residues": [["GLY", ["g1", "g2"]], ["GLY", ["g1", "g2"]]]},
+]
+FAMILIES = {"main": FIXED, "names": FIXED_NAMES}
+
+
+def fixed_spec(seq, family="main", resids=None):
+    """seq: tuple over 0..nsp (0..nsp-1 = species of the family, nsp = solvent residue); resids: residue numbers used
+    in the topology of each species (default 1, 2, 3, ...)"""
+    species = FAMILIES[family]
+    nsp = len(species)
+    rr = resids if resids is not None else [None] * nsp
+    return {"species": species, "segments": [s if s < nsp else SOLVENT for s in seq],
+            "tops": [species_top(sp, resids=rr[k]) for k, sp in enumerate(species)] +
+                    [near_miss_top(sp, resids=rr[k]) for k, sp in enumerate(species)],
+            "top_species": list(range(nsp)) + [None] * nsp}
 
 
 def random_domain_spec(rs, nmol):
@@ -581,7 +636,8 @@ def random_domain_spec(rs, nmol):
         alphabet = []
         for q in range(int(rs.randint(1, 3))):
             while True:
-                key = ("R%d%s" % (s, "xyz"[q]), int(rs.randint(1, 4)))
+                # residue names are drawn from a small pool shared by all species: the signature is (name, atom count)
+                key = (["RA", "RB", "RC", "R%d" % s][int(rs.randint(0, 4))], int(rs.randint(1, 5)))
                 if key not in used:
                     used.add(key)
                     break
@@ -597,7 +653,9 @@ def random_domain_spec(rs, nmol):
             segs.append(others[int(rs.randint(0, len(others)))])
         else:
             segs.append(int(u))
-    tops = [species_top(sp) for sp in species] + [near_miss_top(sp) for sp in species]
+    rr = [random_resids(rs, sp) if rs.randint(0, 3) else None for sp in species]
+    tops = [species_top(sp, resids=rr[k]) for k, sp in enumerate(species)] + \
+           [near_miss_top(sp, resids=rr[k]) for k, sp in enumerate(species)]
     top_species = list(range(nsp)) + [None] * nsp
     # a topology made of residues of the file in an arrangement that occurs nowhere: no matching run
     flat = []
@@ -714,6 +772,14 @@ CORPUS = [
     # near-miss topologies (index 4 + s: one atom name of species s changed) are refused and change nothing:
     # the genuine topology loaded afterwards still gets every molecule
     {"seq": (0, 1, 0, 2), "orders": [[4, 0], [5, 1, 0], [6, 2, 1], [4, 5, 6, 7, 0, 1, 2, 3], [4], [7, 6]]},
+    # hand-made residue numbers in the topologies: resnr left at 1 for consecutive residues with different names (B: BX,BY;
+    # C: CP,CQ,CP), gaps and a decreasing pair (D)
+    {"seq": (1, 0, 1, 2, 3), "orders": [[1, 2, 3, 0], [3, 2, 1]], "resids": [[7], [1, 1], [1, 1, 1], [9, 2]]},
+    # a topology offered again after it was accepted has no run left: refused, molecules stay one per instance
+    {"seq": (0, 1, 0), "orders": [[0, 0, 1], [1, 0, 1, 0]]},
+    # first residue shares its NAME with a later residue of another size (terminal residue), several instances; a second
+    # species uses the same name with a third size
+    {"seq": (0, 1, 0, 0, 3, 2), "family": "names", "orders": [[0], [0, 1, 2], [2, 1, 0], [1, 0]]},
 ]
 
 
@@ -750,11 +816,13 @@ def corpus(ctx):
     S = ctx.cov["S"]
     S["corpus"] = 0
     for c in CORPUS:
-        r = run_system({"spec": fixed_spec(c["seq"]), "orders": c["orders"], "domain": True, "seed": 1})
+        fam, rr = c.get("family", "main"), c.get("resids")
+        r = run_system({"spec": fixed_spec(c["seq"], fam, rr), "orders": c["orders"], "domain": True, "seed": 1})
         S["corpus"] += r["sessions"]
         for order, bad in r["fails"]:
             ctx.violation("C11 on a committed witness: " + "; ".join(bad[:4]),
-                          {"kind": "fixed", "seq": list(c["seq"]), "orders": [order], "domain": True}, key="recognition")
+                          {"kind": "fixed", "seq": list(c["seq"]), "family": fam, "resids": rr, "orders": [order],
+                           "domain": True}, key="recognition")
     # long uninterrupted blocks: iteration must agree with indexing and with the file on EVERY molecule
     for which, n in CORPUS_BLOCKS:
         job = {"spec": block_spec(which, n), "orders": [[0, 1]], "domain": True, "kind": "block", "block": [which, n], "seed": 1}
@@ -796,8 +864,22 @@ def make_jobs(ctx):
                 in_k = bool(rs.randint(0, 2))     # S on every sequence, K (text for coqc) on a random half
             ords = ords + near_miss_orders(rs, set(x for x in seq if x < 4), 4, 3)
             vo = vo + [len(ords) - 3]
-            jobs.append({"spec": fixed_spec(seq), "orders": ords, "domain": True, "kind": "fixed", "seq": list(seq),
+            ords = ords + repeat_orders(rs, set(x for x in seq if x < 4), 4, 2)
+            # residue numbers of the topologies: 1,2,3.. for one system in three, hand-made numbering otherwise
+            rr = None if rs.randint(0, 3) == 0 else [random_resids(rs, sp) for sp in FIXED]
+            jobs.append({"spec": fixed_spec(seq, "main", rr), "orders": ords, "domain": True, "kind": "fixed", "seq": list(seq),
+                         "family": "main", "resids": rr,
                          "seed": int(rs.randint(0, 2 ** 31)), "full_slices": False, "view_orders": vo, "in_k": in_k})
+    # second exhaustive family: residue names shared inside and across species with different atom counts
+    orders3 = all_orders(3)
+    for n in range(1, ctx.n(4, 5) + 1):
+        for seq in itertools.product(range(4), repeat=n):
+            present = set(x for x in seq if x < 3)
+            ords = orders3 + near_miss_orders(rs, present, 3, 2) + repeat_orders(rs, present, 3, 2)
+            rr = None if rs.randint(0, 2) == 0 else [random_resids(rs, sp) for sp in FIXED_NAMES]
+            jobs.append({"spec": fixed_spec(seq, "names", rr), "orders": ords, "domain": True, "kind": "fixed", "seq": list(seq),
+                         "family": "names", "resids": rr, "seed": int(rs.randint(0, 2 ** 31)), "full_slices": False,
+                         "view_orders": [int(rs.randint(10, 16)), len(orders3)]})
     # exhaustive slices on a few systems
     for _ in range(ctx.n(6, 40)):
         seq = [int(x) for x in rs.randint(0, 5, size=int(rs.randint(1, 5)))]
@@ -808,6 +890,7 @@ def make_jobs(ctx):
         k = len(spec["tops"])
         ords = [list(rs.permutation(k)) for _ in range(3)] + [list(rs.permutation(k))[:int(rs.randint(0, k + 1))]]
         ords = [[int(x) for x in o] for o in ords]
+        ords[1] = ords[1] + [ords[1][int(rs.randint(0, k))]]          # one topology offered a second time
         jobs.append({"spec": spec, "orders": ords, "domain": True, "kind": "random", "seed": int(rs.randint(0, 2 ** 31)),
                      "ctor": ords[0], "view_orders": [0, 3]})
     for _ in range(ctx.n(600, 6000)):
@@ -834,6 +917,8 @@ def job_replay(job, order=None):
         r["samekey"] = True
     if job["kind"] == "fixed":
         r["seq"] = job["seq"]
+        r["family"] = job.get("family", "main")
+        r["resids"] = job.get("resids")
     elif job["kind"] == "block":
         r["block"] = job["block"]
     else:
@@ -921,7 +1006,7 @@ def correspondence(ctx):
 
 def spec_of(r):
     if r["kind"] == "fixed":
-        return fixed_spec(r["seq"])
+        return fixed_spec(r["seq"], r.get("family", "main"), r.get("resids"))
     if r["kind"] == "block":
         return block_spec(*r["block"])
     return r["spec"]
